@@ -177,7 +177,7 @@ Proof.
   destruct X as [C1 o1]. cbn [fst] in D1'.
   destruct (q_owner q) as [d|p]; [exact D1'|].
   destruct (nth_error (c_ops C1) p) as [[k al rid ph]|]; [|exact D1'].
-  destruct ph as [rest i' h'| | |]; try exact D1'.
+  destruct ph as [rest i' h'| | | |]; try exact D1'.
   destruct (Nat.eqb i i' && Nat.eqb h h'); [|exact D1'].
   destruct (if q_to q then RTimedOut else res_of oc);
     try (pose proof (op_known_D exd rest C1 p rid D1') as Y; destruct (op_known C1 p rid rest); exact Y).
@@ -290,8 +290,13 @@ Lemma succ1_DL exd C p f : DL exd C -> DL exd (fst (succ1 C p f)).
 Proof.
   intro D. unfold succ1. destruct (nth_error (c_ops C) p) as [o|]; [|exact D].
   assert (DL exd (set_phase C p PDone)) as D1' by (apply (set_phase_D in_dl in_dl_frame); exact D).
-  destruct (o_kind o =? 1); [|exact D1']. destruct (closing (set_phase C p PDone)); [exact D1'|].
-  pose proof (merge_DL exd _ (drop 4 f) (o_all o) D1') as Y. destruct (merge (set_phase C p PDone) (drop 4 f) (o_all o)). exact Y.
+  destruct (o_kind o =? 1).
+  - destruct (closing (set_phase C p PDone)); [exact D1'|].
+    pose proof (merge_DL exd _ (drop 4 f) (o_all o) D1') as Y. destruct (merge (set_phase C p PDone) (drop 4 f) (o_all o)). exact Y.
+  - destruct (is_ltp (o_kind o)); [|exact D1']. destruct (closing (set_phase C p PDone)); [exact D1'|].
+    pose proof (merge_DL exd _ (drop 4 f) false D1') as Y. destruct (merge (set_phase C p PDone) (drop 4 f) false) as [C2 o2]. cbn [fst] in Y.
+    destruct (missing (drop 4 f)); [|exact Y]. unfold new_timer. cbn [fst].
+    eapply (D_frame in_dl in_dl_frame); [| |exact Y]; reflexivity.
 Qed.
 
 Lemma ev_bc_DL exd C i e : DL exd C -> e <> BrokerClient.EClose -> DL exd (fst (ev_bc C i e)).
@@ -303,12 +308,14 @@ Proof.
   set (X := match nth_error (c_ops C) p with
             | Some (mkOp _ _ _ (PBootConn a rest)) => let (C', o') := boot_next (set_boot C a KDead) p rest in (C', OBootCancel a :: o')
             | Some (mkOp _ _ _ (PBootReq a t rest)) => let (C', o') := boot_next C p rest in (C', OCancelTimer t :: OBootLose a :: o')
+            | Some (mkOp _ _ _ (PWait t)) => let (C', o') := op_fail C p RCancelled in (C', OCancelTimer t :: o')
             | _ => (C, []) end).
   assert (DL exd (fst X)) as D1'.
   { unfold X. destruct (nth_error (c_ops C) p) as [[k al rid ph]|]; [|exact D]. destruct ph; try exact D.
     - pose proof (boot_next_D in_dl in_dl_frame exd (set_boot C a KDead) p rest) as Y. destruct (boot_next (set_boot C a KDead) p rest).
       cbn [fst] in *. apply Y. eapply (D_frame in_dl in_dl_frame); [| |exact D]; reflexivity.
-    - pose proof (boot_next_D in_dl in_dl_frame exd C p rest D) as Y. destruct (boot_next C p rest). exact Y. }
+    - pose proof (boot_next_D in_dl in_dl_frame exd C p rest D) as Y. destruct (boot_next C p rest). exact Y.
+    - pose proof (op_fail_D in_dl in_dl_frame exd C p RCancelled D) as Y. destruct (op_fail C p RCancelled). exact Y. }
   destruct X as [C1 o1]. cbn [fst] in D1'. pose proof (IH C1 (S p) D1') as Y. destruct (cancel_boots C1 n (S p)). exact Y.
 Qed.
 
@@ -339,7 +346,7 @@ Proof.
   - apply ev_bc_DL; [exact D | discriminate].
   - apply ev_bc_DL; [exact D | discriminate].
   - apply ev_bc_DL; [exact D | discriminate].
-  - destruct (nth_error (c_timers C) t) as [[i h|i|p a]|]; [| | |exact D].
+  - destruct (nth_error (c_timers C) t) as [[i h|i|p a|p]|]; [| | | |exact D].
     + unfold creq_at. destruct (nth_error (c_bcs C) i) as [b|]; [|exact D].
       destruct (nth_error (b_reqs b) h) as [[ow [t'|] to]|]; try exact D.
       destruct (Nat.eqb t t'); [|exact D].
@@ -355,6 +362,10 @@ Proof.
       apply ev_bc_DL; [|discriminate]. eapply (D_frame in_dl in_dl_frame); [| |exact D]; [apply sts_upd_keep; reflexivity | reflexivity].
     + destruct (phase_of C p); try exact D. destruct (Nat.eqb a a0 && Nat.eqb t t0); [|exact D].
       pose proof (boot_next_D in_dl in_dl_frame [] C p rest D) as Y. destruct (boot_next C p rest). exact Y.
+    + destruct (phase_of C p); try exact D. destruct (Nat.eqb t t0); [|exact D]. unfold next_id. cbn [fst snd].
+      set (C1 := with_corr C _). set (C2 := restart_op C1 p _).
+      assert (DL [] C2) as D2 by (eapply (D_frame in_dl in_dl_frame); [| |exact D]; reflexivity).
+      destruct (c_clients C2); [apply (op_known_D in_dl in_dl_frame in_dl_refresh); exact D2 | apply (op_fail_D in_dl in_dl_frame); exact D2].
   - destruct (nth_error (c_boots C) a) as [[[p rid] [| |]]|]; try exact D.
     destruct (phase_of C p); try exact D. destruct (Nat.eqb a a0); [|exact D].
     unfold new_timer. cbn [fst]. eapply (D_frame in_dl in_dl_frame); [| |exact D]; reflexivity.
